@@ -370,6 +370,8 @@ package ddsketch
 //@   serves C06 C14 C07
 //@   requires KInv(s) && b != nil
 //@   ensures append-only: enc.PrefixKept(b)
+//@   ensures mapping-block: !omitIndexMapping ==> len(*b) >= old(len(*b)) + 17
+//@   ensures zero-block: s.zeroCount != 0.0 ==> len(*b) >= old(len(*b)) + 2
 //@   ensures pure: KInv(s) && KSame(s)
 //@   ensures stable: footprintStable(s)
 //@   modifies *b, arr(*b), footprint(s)
